@@ -6,6 +6,7 @@
  seven versions; TLC judges every record: the save made before any query equals the one made after the battery, files 2 and 3 equal file 1 after canonical string-table renumbering (every index
  compared through the string it denotes), and the battery answers identically before and after every save."""
 import json
+import re
 import os
 
 import vlib
@@ -39,7 +40,9 @@ def run(tier):
         if key in seen:
             continue
         seen.add(key)
-        small = {k: ev[k] for k in ev if k not in ("Sfirst", "S0", "S1", "S2", "S3", "q0", "q1", "q2", "q3")}
+        small = {k: ev[k] for k in ev if k not in ("Sfirst", "S0", "S1", "S2", "S3", "q0", "q1", "q2", "q3", "qTwin")}
+        if "qTwin" in ev and "q0" in ev:
+            small["answers_unlike_the_unsaved_twin"] = sorted(k for k in ev["q0"] if ev["q0"].get(k) != ev["qTwin"].get(k))[:12]
         if "q0" in ev:
             small["queries_changed"] = sorted({k for k in ev["q0"] if not (ev["q0"].get(k) == ev["q1"].get(k) == ev["q2"].get(k) == ev["q3"].get(k))})[:12]
             f1, f2 = ev["S1"], ev["S2"]
@@ -48,6 +51,8 @@ def run(tier):
             small["first_block_diff_0_1"] = next((i for i, (a, b) in enumerate(zip(ev["S0"]["blocks"], f1["blocks"])) if (a["type"], a["size"], a["cid"], a["wrefs"]) != (b["type"], b["size"], b["cid"], b["wrefs"])), None)
         sig = {"check": "C02", "event": ev["e"], "clauses": sorted(v["clauses"]), "opt": ev.get("opt"), "variant": ev.get("variant")}
         sig["stripPartitions"] = bool(ev.get("stripPartitions"))
+        if "answers_unlike_the_unsaved_twin" in small:
+            sig["unlike"] = sorted({re.sub(r"^shape\d+\.", "shape.", k) for k in small["answers_unlike_the_unsaved_twin"]})
         for k in ("file", "type", "ver"):
             if k in c:
                 sig[k] = c[k]
